@@ -34,13 +34,14 @@ enum ProbeId { P_item_by_file, P_item_by_env, P_item_by_argv, P_all_three_source
                P_word_needed_quoting, P_style_backslash, P_style_single, P_style_double, P_style_mixed,
                P_comment_or_empty_line, P_multi_value_in_file_line, P_override_file_argv, P_override_env_argv,
                P_read_returned_one_byte, P_file_via_flag, P_file_via_argument, P_env_default_name, P_env_named,
-               P_several_items_on_one_line, P_file_line_evaluated, P_nested_argument_file, P_env_names_argument_file };
+               P_several_items_on_one_line, P_file_line_evaluated, P_nested_argument_file, P_env_names_argument_file, P_value_list_continued, P_cardinality_only_difference };
 const char* const kProbeNames[] = { "item_delivered_by_file", "item_delivered_by_env", "item_delivered_by_argv",
                "all_three_sources_in_one_run", "both_runs_returned", "both_runs_threw", "word_needed_quoting",
                "style_backslash", "style_single_quotes", "style_double_quotes", "style_mixed", "comment_or_empty_line_skipped",
                "multi_value_words_in_file_line", "override_file_then_argv", "override_env_then_argv", "read_returned_one_byte",
                "file_via_program_name_flag", "file_via_argument", "env_default_name", "env_named", "several_items_on_one_line",
-               "file_line_evaluated", "argument_file_includes_another_file", "environment_variable_names_argument_file" };
+               "file_line_evaluated", "argument_file_includes_another_file", "environment_variable_names_argument_file",
+               "value_list_continued_on_next_line_or_source", "argv_rejected_for_cardinality_only" };
 
 std::string upper( std::string s)
 {
@@ -138,6 +139,28 @@ public:
          }
       }
       for (size_t k = made.size(); k > 1; --k) std::swap( made[ k - 1], made[ wl.below( k)]);
+      // a free multi-value list may continue on the next file line or in the next
+      // source (the argument that takes the values stays the "last argument"
+      // across lines and sources); not when an argument-file argument sits in
+      // between (it becomes the last argument itself)
+      // (and not together with an override, whose first use is appended to the source)
+      const bool  want_override = wl.chance( 1, 3) && recipe.gets( "constraint").empty();
+      if (!want_override && recipe.geti( "multi", 0) != 0 && plan.gets( "file_via") != "arg" && !plan.has( "nest"))
+      {
+         for (size_t k = 0; k < made.size(); ++k)
+         {
+            const ArgInfo&  a = built.args[ made[ k].first];
+            const Json&     w = made[ k].second;
+            // (an argument with a cardinality counts only the values that come from argv)
+            if (!a.multi || a.once || w.size() < 3 || w.at( 0).s().empty() || w.at( 0).s()[ 0] != '-' || !wl.chance( 1, 2)) continue;
+            const size_t  cut = 2 + static_cast< size_t>( wl.below( w.size() - 2));
+            Json  head = Json::array(), tail = Json::array();
+            for (size_t j = 0; j < w.size(); ++j) (j < cut ? head : tail).push( w.at( j));
+            made[ k].second = head;
+            made.insert( made.begin() + static_cast< long>( k) + 1, std::make_pair( made[ k].first, tail));
+            ++k;
+         }
+      }
       // consecutive parts F, E, A; positional values and the rest of the line go to argv
       size_t  nf = plan.gets( "file_via") == "none" ? 0 : static_cast< size_t>( wl.below( made.size() + 1));
       size_t  ne = plan.gets( "env_via") == "none" ? 0 : static_cast< size_t>( wl.below( made.size() - nf + 1));
@@ -166,7 +189,7 @@ public:
       // override case: a single-value argument given by a source and again on argv
       // (not together with argument constraints: 'excludes'/'requires' depend on
       // the order of first appearance, which an override changes by design)
-      if (wl.chance( 1, 3) && recipe.gets( "constraint").empty())
+      if (want_override)
       {
          for (size_t k = 0; k < built.args.size(); ++k)
          {
@@ -258,6 +281,7 @@ public:
             else if (src == "e") { we.push_back( word); env_styles.push_back( style); }
             else wa.push_back( word);
          }
+         if (words.at( 0).s()[ 0] != '-' && !it.geti( "once", 0) && k > 0) st.probe( P_value_list_continued);
          if (src == "f")
          {
             const long long  line = it.geti( "line", 0);
@@ -515,6 +539,14 @@ public:
 
       if (!x.std_exception || !y.std_exception)
          res.fail( "VIOLATION", "D3-exception-type", "an exception not derived from std::exception escaped");
+      else if (x.threw && !y.threw && (x.what == "too many values" || x.what == "not all expected values"))
+      {
+         // by design the library does not count values from a file or the
+         // environment for the cardinality (that is what makes the override
+         // possible): a line that argv rejects for its cardinality only may be
+         // accepted through the sources. Not a statement about C07.
+         st.probe( P_cardinality_only_difference);
+      }
       else if (x.threw != y.threw)
          res.fail( "VIOLATION", "D1-outcome", std::string( "words on argv ") + (x.threw ? "are rejected (" + x.what + ")" : "are accepted")
             + " but the same words through " + (wf.empty() ? "" : "file ") + (we.empty() ? "" : "environment ") + "are "
